@@ -1,15 +1,372 @@
 /-
   C29 — JSON and array operations in queries match Python semantics.  Property theorems only.
+
+  `W` is the regex class `\w` (any classification of characters that contains the ASCII identifier start characters
+  and excludes `.`, `[`, `"`); `cte` says whether `_traverse` also catches TypeError and `JsonLits.*` are the literal
+  list / regex texts / flags read from the current source on every run by harness/gen_c29.py.
 -/
 import PonyVerif.Model.JsonOps
+import PonyVerif.Lemmas.JsonOps
 import PonyVerif.Gen.JsonLits
+set_option linter.unusedSimpArgs false
+set_option linter.unusedVariables false
 namespace PonyVerif.Props.C29
 open PonyVerif.Model.JsonOps PonyVerif.Gen
+
+/-! ### what the theorems are stated against is what the source contains -/
 
 /-- the literal list of `SQLiteBuilder.JSON_NONZERO` in the current source, as texts -/
 def srcLits : List Text := JsonLits.sqliteNonzeroLits.map String.toList
 
-theorem C29_src_regex : JsonLits.jsonPathRe = "\\[(-?\\d+)\\]|\\.(?:(\\w+)|\"([^\"]*)\")" ∧ JsonLits.identRe = "^[A-Za-z_]\\w*\\Z" := by
+/-- the regex the scanner `matchSeg` was written for is the regex in `sqlite.py`; `is_ident` is `^[A-Za-z_]\w*\Z` -/
+theorem C29_src_regex :
+    JsonLits.jsonPathRe = "\\[(-?\\d+)\\]|\\.(?:(\\w+)|\"([^\"]*)\")" ∧ JsonLits.identRe = "^[A-Za-z_]\\w*\\Z" := by
   decide
+
+/-- `JSON_NONZERO` is `expr NOT IN (…)` on the bare expression, its literal list contains the six literals of the model and at most the two
+    float-zero spellings in addition (the two states of the tree the theorems below cover) -/
+theorem C29_src_lits :
+    JsonLits.sqliteNonzeroShape = "plain" ∧ (∀ t ∈ baseLits, t ∈ srcLits) ∧ (∀ t ∈ srcLits, t ∈ baseLits ++ floatZeroLits) := by
+  decide
+
+/-- the ASCII word class (what `\w` is on ASCII) meets the hypotheses of the path theorems -/
+def asciiW (c : Char) : Bool := c.isAlphanum || c == '_'
+
+/-! ### path text: build, then parse back -/
+
+/-- **Round trip.** For every key list without a double quote in a name, `_parse_path(eval_json_path(keys)) = keys`. -/
+theorem C29_path_roundtrip (W : Char → Bool) (hW : WordClass W) (keys : List Key) (h : ∀ k ∈ keys, k.pathSafe = true) :
+    parsePath W (evalJsonPath W keys) = some keys := by
+  simp only [evalJsonPath, parsePath]
+  exact parseSegs_segs W hW keys h _ (Nat.le_refl _)
+
+/-- the full statement (no guard) -/
+def C29_path_roundtrip_full : Prop :=
+  ∀ (W : Char → Bool), WordClass W → ∀ keys : List Key, parsePath W (evalJsonPath W keys) = some keys
+
+theorem asciiW_wordClass : WordClass asciiW where
+  ident := by
+    intro c h
+    simp only [isIdentStart, Bool.or_eq_true, beq_iff_eq] at h
+    simp only [asciiW, Char.isAlphanum, Bool.or_eq_true, beq_iff_eq]
+    rcases h with h | h
+    · exact Or.inl (Or.inl h)
+    · exact Or.inr h
+  dot := by decide
+  bracket := by decide
+  quote := by decide
+
+/-- what the code does with the key `q"k`: the emitted text `$."q\"k"` is not parseable at all (`keys = None`, the query yields NULL) -/
+theorem C29_path_quote_witness : parsePath asciiW (evalJsonPath asciiW [.name ['q', '"', 'k']]) = none := by
+  decide
+
+theorem C29_path_roundtrip_full_false : ¬ C29_path_roundtrip_full := by
+  intro h
+  have := h asciiW asciiW_wordClass [.name ['q', '"', 'k']]
+  rw [C29_path_quote_witness] at this
+  exact absurd this (by simp)
+
+example : ∀ k ∈ [Key.name ['a', ' ', 'b'], Key.idx (-3), Key.name [], Key.name ['x']], k.pathSafe = true := by decide
+
+/-! ### navigation -/
+
+theorem listGet_nonneg (xs : List α) (i : Int) (hi : 0 ≤ i) : listGet xs i = xs[i.toNat]? := by
+  have h0 : ¬ i < 0 := by omega
+  by_cases hlt : i < (xs.length : Int)
+  · have hc : ¬ (i < 0 ∨ i ≥ (xs.length : Int)) := by omega
+    simp [listGet, h0, hc]
+    omega
+  · have hc : (i < 0 ∨ i ≥ (xs.length : Int)) := by omega
+    have hn : xs[i.toNat]? = none := List.getElem?_eq_none (by omega)
+    simp [listGet, h0, hc, hn]
+
+theorem getItem_ok_container (v : Json) (k : Key) (w : Json) (h : getItem v k = .ok w) : v.isContainer = true := by
+  cases v <;> cases k <;> simp [getItem] at h <;> rfl
+
+/-- **`_traverse` agrees with Python navigation** wherever Python navigation has a result (all documents, all paths; negative list
+    indexes included; independent of whether TypeError is caught) -/
+theorem C29_traverse (cte : Bool) (doc : Json) (keys : List Key) (v : Json) (h : pyNavigate doc keys = .ok v) :
+    traverseKeys cte doc keys = .ok v := by
+  induction keys generalizing doc with
+  | nil => simpa [pyNavigate, traverseKeys] using h
+  | cons k ks ih =>
+    simp only [pyNavigate] at h
+    cases hg : getItem doc k with
+    | error e => rw [hg] at h; simp at h
+    | ok w =>
+      rw [hg] at h
+      have hc := getItem_ok_container doc k w hg
+      simp only [traverseKeys, hc, hg]
+      exact ih w h
+
+/-- where Python raises, `_traverse` yields None (SQL NULL) — except that the TypeError of a string key applied to a list escapes when the
+    except clause does not name it -/
+theorem C29_traverse_missing (cte : Bool) (doc : Json) (keys : List Key) (e : NavErr) (h : pyNavigate doc keys = .error e) :
+    traverseKeys cte doc keys = .ok .null ∨ (cte = false ∧ e = .typeError ∧ traverseKeys cte doc keys = .error .typeError) := by
+  induction keys generalizing doc with
+  | nil => simp [pyNavigate] at h
+  | cons k ks ih =>
+    simp only [pyNavigate] at h
+    by_cases hc : doc.isContainer = true
+    · cases hg : getItem doc k with
+      | ok w => rw [hg] at h; simp only [traverseKeys, hc, hg]; exact ih w h
+      | error e' =>
+        rw [hg] at h
+        simp only [Except.error.injEq] at h
+        subst h
+        cases e' <;> cases cte <;> simp [traverseKeys, hc, hg]
+    · simp [traverseKeys, hc]
+
+example : pyNavigate (.obj [(['a'], .arr [.int 1, .int 2, .int 3])]) [.name ['a'], .idx (-1)] = .ok (.int 3) := by rfl
+
+/-- with the TypeError caught, `_traverse` is total -/
+theorem C29_traverse_total (doc : Json) (keys : List Key) : ∃ v, traverseKeys true doc keys = .ok v := by
+  induction keys generalizing doc with
+  | nil => exact ⟨doc, rfl⟩
+  | cons k ks ih =>
+    by_cases hc : doc.isContainer = true
+    · cases hg : getItem doc k with
+      | ok w => simp only [traverseKeys, hc, hg]; exact ih w
+      | error e' => cases e' <;> exact ⟨.null, by simp [traverseKeys, hc, hg]⟩
+    · exact ⟨.null, by simp [traverseKeys, hc]⟩
+
+/-! ### JSON_QUERY on the fallback: extract both paths, dump, unwrap -/
+
+theorem C29_unwrap (v : Json) : pyJsonUnwrap (some (dumps (.arr [.null, v]))) = some (dumps v) := by
+  simp [pyJsonUnwrap, dumps, dumpsList, List.isPrefixOf, List.dropLast_concat]
+
+/-- for a top-level object without the sentinel key, `JSON_QUERY(doc, path)` is the dumped text of the value `_traverse` reaches -/
+theorem C29_query_object (cte : Bool) (kvs : List (Text × Json)) (pk : Option (List Key)) (v : Json)
+    (hs : kvs.lookup nonExistentKey = none) (h : traverse cte (.obj kvs) pk = .ok v) :
+    jsonQueryFallback cte (.obj kvs) pk = .ok (some (dumps v)) := by
+  have h0 : traverse cte (.obj kvs) (some [.name nonExistentKey]) = .ok .null := by
+    simp [traverse, traverseKeys, Json.isContainer, getItem, hs]
+  simp only [jsonQueryFallback, pyJsonExtract2, h0, h, C29_unwrap]
+
+/-- the tree as snapshotted (`cte = false`): on the fallback every path query into a top-level ARRAY raises TypeError … -/
+theorem C29_query_toplevel_array_raises (xs : List Json) (pk : Option (List Key)) :
+    jsonQueryFallback false (.arr xs) pk = .error .typeError := by
+  simp [jsonQueryFallback, pyJsonExtract2, traverse, traverseKeys, Json.isContainer, getItem]
+
+/-- … and once TypeError is caught it is the dumped value, as for objects -/
+theorem C29_query_toplevel_array_fixed (xs : List Json) (pk : Option (List Key)) (v : Json) (h : traverse true (.arr xs) pk = .ok v) :
+    jsonQueryFallback true (.arr xs) pk = .ok (some (dumps v)) := by
+  have h0 : traverse true (.arr xs) (some [.name nonExistentKey]) = .ok .null := by
+    simp [traverse, traverseKeys, Json.isContainer, getItem]
+  simp only [jsonQueryFallback, pyJsonExtract2, h0, h, C29_unwrap]
+
+/-! ### truthiness: `expr NOT IN (literals)` on the dumped text vs `bool(v)` -/
+
+theorem contains_iff_mem (L : List Text) (t : Text) : L.contains t = true ↔ t ∈ L := by
+  simp
+
+/-- **Truthiness, guarded.** For every literal list between the six base literals and base + float zeros, and every value that is
+    not a float zero: `JSON_NONZERO` on the dumped text is Python truthiness. -/
+theorem C29_nonzero_partial (L : List Text) (hb : ∀ t ∈ baseLits, t ∈ L) (hu : ∀ t ∈ L, t ∈ baseLits ++ floatZeroLits)
+    (v : Json) (hv : v.topOk = true) (hz : v.isFloatZero = false) :
+    jsonNonzero L (dumps v) = pyTruthy v := by
+  have hfz : dumps v ∉ floatZeroLits := by rw [dumps_mem_fz v hv, hz]; simp
+  have hmem : dumps v ∈ L ↔ dumps v ∈ baseLits := by
+    constructor
+    · intro h; have := hu _ h; simp only [List.mem_append] at this; rcases this with h | h
+      · exact h
+      · exact absurd h hfz
+    · exact hb _
+  have hbase := dumps_mem_base v hv
+  simp only [jsonNonzero]
+  cases ht : pyTruthy v
+  · have : dumps v ∈ L := hmem.2 (hbase.2 ⟨ht, hz⟩)
+    simp [this]
+  · have : dumps v ∉ L := by intro h; have := (hbase.1 (hmem.1 h)).1; rw [ht] at this; simp at this
+    simp [this]
+
+/-- the full statement for a literal list `L` -/
+def C29_nonzero_full (L : List Text) : Prop := ∀ v : Json, v.topOk = true → jsonNonzero L (dumps v) = pyTruthy v
+
+/-- **Truthiness, exactly.** The unguarded statement holds for a literal list iff it contains both `0.0` and `-0.0` -/
+theorem C29_nonzero_full_iff (L : List Text) (hb : ∀ t ∈ baseLits, t ∈ L) (hu : ∀ t ∈ L, t ∈ baseLits ++ floatZeroLits) :
+    C29_nonzero_full L ↔ (['0', '.', '0'] ∈ L ∧ ['-', '0', '.', '0'] ∈ L) := by
+  constructor
+  · intro h
+    have h1 := h (.fzero false) rfl
+    have h2 := h (.fzero true) rfl
+    simp [jsonNonzero, dumps, pyTruthy] at h1 h2
+    exact ⟨h1, h2⟩
+  · intro ⟨h1, h2⟩ v hv
+    by_cases hz : v.isFloatZero = true
+    · cases v <;> simp [Json.isFloatZero] at hz
+      rename_i b; cases b <;> simp [jsonNonzero, dumps, pyTruthy, h1, h2]
+    · exact C29_nonzero_partial L hb hu v hv (by simpa using hz)
+
+/-- the six literals of the tree as snapshotted: `0.0` is truthy in SQL -/
+theorem C29_nonzero_full_false : ¬ C29_nonzero_full baseLits := by
+  rw [C29_nonzero_full_iff baseLits (fun _ h => h) (fun _ h => by simp [h])]
+  decide
+
+/-- the guarded theorem applies to the literal list of the current source -/
+theorem C29_nonzero_src (v : Json) (hv : v.topOk = true) (hz : v.isFloatZero = false) : jsonNonzero srcLits (dumps v) = pyTruthy v :=
+  C29_nonzero_partial srcLits C29_src_lits.2.1 C29_src_lits.2.2 v hv hz
+
+example : (Json.float '1' ['.', '5']).topOk = true ∧ (Json.float '1' ['.', '5']).isFloatZero = false := by decide
+
+/-! ### the JSON1 path lookup (backend model) against `_traverse` -/
+
+/-- a key JSON1 can look up: a non-negative index, or a name without `"`, `\` and control characters -/
+def Key.json1Safe : Key → Bool
+  | .idx i => decide (0 ≤ i)
+  | .name s => s.all json1SafeChar
+
+/-- **JSON1 = fallback** for every document and every path of JSON1-safe keys (where `_traverse` does not raise) -/
+theorem C29_json1_agrees (cte : Bool) (doc : Json) (keys : List Key) (hk : ∀ k ∈ keys, Key.json1Safe k = true) (v : Json)
+    (h : traverseKeys cte doc keys = .ok v) : json1Extract doc keys = .ok v := by
+  induction keys generalizing doc with
+  | nil => simpa [traverseKeys, json1Extract] using h
+  | cons k ks ih =>
+    have hk0 := hk k (by simp)
+    have hks : ∀ k ∈ ks, Key.json1Safe k = true := fun k hk' => hk k (by simp [hk'])
+    cases k with
+    | idx i =>
+      have hi : ¬ i < 0 := by simp [Key.json1Safe] at hk0; omega
+      cases doc with
+      | arr xs =>
+        simp only [traverseKeys, Json.isContainer, getItem, listGet_nonneg xs i (by omega)] at h
+        simp only [json1Extract, hi]
+        cases hx : xs[i.toNat]? with
+        | none => rw [hx] at h; simp at h; subst h; simp
+        | some w => rw [hx] at h; simp at h; simp only [if_false]; exact ih _ hks h
+      | obj kvs => simp [traverseKeys, Json.isContainer, getItem] at h; simp [json1Extract, hi, h]
+      | null => simp [traverseKeys, Json.isContainer] at h; simp [json1Extract, hi, h]
+      | bool b => simp [traverseKeys, Json.isContainer] at h; simp [json1Extract, hi, h]
+      | int j => simp [traverseKeys, Json.isContainer] at h; simp [json1Extract, hi, h]
+      | fzero b => simp [traverseKeys, Json.isContainer] at h; simp [json1Extract, hi, h]
+      | float c r => simp [traverseKeys, Json.isContainer] at h; simp [json1Extract, hi, h]
+      | str s => simp [traverseKeys, Json.isContainer] at h; simp [json1Extract, hi, h]
+    | name s =>
+      have hs : s.all json1SafeChar = true := by simpa [Key.json1Safe] using hk0
+      cases doc with
+      | obj kvs =>
+        simp only [traverseKeys, Json.isContainer, getItem] at h
+        simp only [json1Extract, hs]
+        cases hl : kvs.lookup s with
+        | none => rw [hl] at h; simp at h; subst h; simp
+        | some w => rw [hl] at h; simp at h; simp only [if_true]; exact ih _ hks h
+      | arr xs => cases cte <;> simp [traverseKeys, Json.isContainer, getItem] at h; simp [json1Extract, h]
+      | null => simp [traverseKeys, Json.isContainer] at h; simp [json1Extract, h]
+      | bool b => simp [traverseKeys, Json.isContainer] at h; simp [json1Extract, h]
+      | int j => simp [traverseKeys, Json.isContainer] at h; simp [json1Extract, h]
+      | fzero b => simp [traverseKeys, Json.isContainer] at h; simp [json1Extract, h]
+      | float c r => simp [traverseKeys, Json.isContainer] at h; simp [json1Extract, h]
+      | str s => simp [traverseKeys, Json.isContainer] at h; simp [json1Extract, h]
+
+/-- the unguarded statement fails on the last element of a list: JSON1 has no `[-1]` -/
+theorem C29_json1_negative_index_false :
+    ¬ (∀ (doc : Json) (keys : List Key) (v : Json), traverseKeys false doc keys = .ok v → json1Extract doc keys = .ok v) := by
+  intro h
+  have := h (.arr [.int 1, .int 2, .int 3]) [.idx (-1)] (.int 3) (by rfl)
+  simp [json1Extract] at this
+
+/-! ### membership and length -/
+
+/-- `key in x.data[path]` : for a list or a dict, `py_json_contains` is Python's `in` -/
+theorem C29_contains (cte : Bool) (doc : Json) (pk : Option (List Key)) (key : Text) (v : Json) (b : Bool)
+    (h : traverse cte doc pk = .ok v) (hin : pyIn key v = some b) : pyJsonContains cte doc pk key = .ok b := by
+  cases v <;> simp [pyIn] at hin <;> simp [pyJsonContains, h, hin]
+
+/-- `len(x.data[path])` : for a list it is the Python length (for anything else `json_array_length` is 0) -/
+theorem C29_json_length (v : Json) : pyJsonArrayLength v = (match v with | .arr xs => xs.length | _ => 0) := by
+  cases v <;> rfl
+
+/-! ### arrays: `ArrayMixin._index`, `py_array_index`, `py_array_slice` -/
+
+/-- the constant branch and the expression branch (`CASE WHEN i >= 0 …`) of `_index` compute the same number -/
+theorem C29_index_forms_agree (f p : Bool) (v len : Int) : indexConst f p v len = indexExpr f p v len := by
+  cases f <;> cases p <;> simp [indexConst, indexExpr] <;> split <;> omega
+
+/-- on SQLite (`from_one = False`) a negative index is sent as `len + index`, a non-negative one unchanged -/
+theorem C29_index_sqlite (p : Bool) (v len : Int) : indexConst false p v len = if v ≥ 0 then v else len + v := by
+  simp [indexConst]; split <;> omega
+
+/-- **`x.arr[i]`** on SQLite is Python's `arr[i]` for every list and every index `i ≥ -len(arr)` (result, or NULL where Python
+    raises IndexError because `i ≥ len`) -/
+theorem C29_array_index (xs : List α) (i : Int) (h : -(xs.length : Int) ≤ i) : sqliteArrayIndex xs i = listGet xs i := by
+  simp only [sqliteArrayIndex, pyArrayIndex, C29_index_sqlite]
+  by_cases hi : i ≥ 0
+  · simp [hi]
+  · simp only [hi, if_false]
+    have h1 : ¬ ((xs.length : Int) + i < 0) := by omega
+    have h2 : i < 0 := by omega
+    simp only [listGet, h1, h2, if_true, if_false]
+    have e : i + (xs.length : Int) = (xs.length : Int) + i := by omega
+    rw [e]
+    simp [h1]
+
+/-- below `-len` Python raises IndexError, while SQLite is handed a still-negative index that `py_array_index` counts from the end again -/
+theorem C29_array_index_wraps : sqliteArrayIndex [1, 2, 3] (-5) = some 2 ∧ listGet [1, 2, 3] (-5) = (none : Option Int) := by
+  decide
+
+theorem adj_sqlite (p : Bool) (n v : Int) (hn : 0 ≤ n) (h : -n ≤ v) : adjIdx n (indexConst false p v n) = adjIdx n v := by
+  rw [C29_index_sqlite]; unfold adjIdx; split <;> split <;> split <;> (try split) <;> omega
+
+theorem adj_clamp (p : Bool) (n v : Int) (hn : 0 ≤ n) : adjIdx n (max (indexConst false p v n) 0) = adjIdx n v := by
+  rw [C29_index_sqlite]; unfold adjIdx; split <;> split <;> split <;> (try split) <;> omega
+
+/-- lower / upper bound of a Python slice -/
+def loOf (n : Int) : Option Int → Int | none => 0 | some i => adjIdx n i
+def hiOf (n : Int) : Option Int → Int | none => n | some i => adjIdx n i
+
+theorem pySlice_eq (xs : List α) (a b : Option Int) :
+    pySlice xs a b = (xs.drop (loOf xs.length a).toNat).take (hiOf xs.length b - loOf xs.length a).toNat := by
+  cases a <;> cases b <;> rfl
+
+theorem pySlice_congr (xs : List α) (a b a' b' : Option Int)
+    (ha : loOf xs.length a' = loOf xs.length a) (hb : hiOf xs.length b' = hiOf xs.length b) : pySlice xs a' b' = pySlice xs a b := by
+  rw [pySlice_eq, pySlice_eq, ha, hb]
+
+/-- **`x.arr[a:b]`, guarded.**  On SQLite the slice is Python's `arr[a:b]` for every list and all bounds `≥ -len(arr)` (omitted bounds included) -/
+theorem C29_array_slice_partial (clamp : Bool) (xs : List α) (a b : Option Int)
+    (ha : ∀ v, a = some v → -(xs.length : Int) ≤ v) (hb : ∀ v, b = some v → -(xs.length : Int) ≤ v) :
+    sqliteArraySlice clamp xs a b = pySlice xs a b := by
+  have hn : (0 : Int) ≤ xs.length := by omega
+  cases clamp
+  · simp only [sqliteArraySlice, pyArraySlice, Bool.false_eq_true, if_false]
+    apply pySlice_congr
+    · cases a with
+      | none => rfl
+      | some v => exact adj_sqlite true _ v hn (ha v rfl)
+    · cases b with
+      | none => rfl
+      | some v => exact adj_sqlite false _ v hn (hb v rfl)
+  · simp only [sqliteArraySlice, pyArraySlice, if_true]
+    apply pySlice_congr
+    · cases a with
+      | none => rfl
+      | some v => exact adj_clamp true _ v hn
+    · cases b with
+      | none => rfl
+      | some v => exact adj_clamp false _ v hn
+
+/-- **`x.arr[a:b]`, all bounds**, once `py_array_slice` maps a still-negative bound to 0 (the proposed repair) -/
+theorem C29_array_slice_clamped (xs : List α) (a b : Option Int) : sqliteArraySlice true xs a b = pySlice xs a b := by
+  have hn : (0 : Int) ≤ xs.length := by omega
+  simp only [sqliteArraySlice, pyArraySlice, if_true]
+  apply pySlice_congr
+  · cases a with
+    | none => rfl
+    | some v => exact adj_clamp true _ v hn
+  · cases b with
+    | none => rfl
+    | some v => exact adj_clamp false _ v hn
+
+/-- the full statement for the tree as snapshotted (`py_array_slice` = `array[start:stop]`) -/
+def C29_array_slice_full : Prop := ∀ (xs : List Int) (a b : Option Int), sqliteArraySlice false xs a b = pySlice xs a b
+
+/-- `[1,2,3][-5:2]` is `[1,2]` in Python; SQLite computes `[1,2,3][-2:2] = [2]` -/
+theorem C29_array_slice_full_false : ¬ C29_array_slice_full := by
+  intro h
+  have := h [1, 2, 3] (some (-5)) (some 2)
+  revert this; decide
+
+example : (∀ v, (some (-3) : Option Int) = some v → -(([1, 2, 3] : List Int).length : Int) ≤ v) := by
+  intro v h; cases h; decide
 
 end PonyVerif.Props.C29
